@@ -328,6 +328,11 @@ func (g *tgen) attr(elem string, dynamic bool) string {
 			g.feat("dyn-unquoted")
 			return name + "=" + g.action()
 		case 1:
+			if g.r.Bool() {
+				// attribute name present on one branch only
+				g.feat("conditional-attrname-empty")
+				return "{{if " + g.boolRef() + "}}" + name + "{{end}}=" + g.r.Pick([]string{`"`, `'`, ``}) + g.action() + g.r.Pick([]string{`"`, ``})
+			}
 			g.feat("dyn-attrname")
 			return g.action() + `="x"`
 		default:
@@ -471,7 +476,7 @@ func (g *tgen) text() string {
 }
 
 func (g *tgen) comment() string {
-	bodies := []string{" c ", "", "x", "-", "--", " a -- b ", "<b>", "<!-- nested", "[if IE]><p>x</p><![endif]", " > ", "->", "\n"}
+	bodies := []string{" c ", "", "x", "-", "--", " a --! b ", "--!", "x--!y", " --!- ", " a -- b ", "<b>", "<!-- nested", "[if IE]><p>x</p><![endif]", " > ", "->", "\n"}
 	if !g.o.NoStrayLT && g.chance(g.o.Odd) {
 		g.feat("odd-comment")
 		return g.r.Pick([]string{"<!-->", "<!--->", "<!--x--!>", "<!-- a --!> b -->", "<!--->-->", "<!---->", "<!--x->-->"})
